@@ -36,12 +36,12 @@ def overlay(o):
                      f".push(arith_row(0, 1, 1, neg1(), 0, 0, {N} + 2, {N}, {N} + 3, 0))",
                      "pis(*final(self)) == pis(*old(self))"])
     f.at_body_start(FO)
-    f.before("let bit_times_a = self.gate_mul(constraint);", "proof { lemma_eo_x_mul(*self, constraint); }")
-    f.after("let bit_times_a = self.gate_mul(constraint);", f"proof {{ assert(wits(*self) == {W0}.push({v0})); }}")
-    f.before("let one_min_bit = self.gate_add(constraint);", "proof { lemma_eo_x_lin(*self, constraint); }")
-    f.after("let one_min_bit = self.gate_add(constraint);", f"proof {{ assert(wits(*self) == {W0}.push({v0}).push({v1})); }}")
-    f.after("let one_min_bit_b = self.gate_mul(constraint);", f"proof {{ assert(wits(*self) == {W0}.push({v0}).push({v1}).push({v2})); }}")
-    f.before("let one_min_bit_b = self.gate_mul(constraint);", "proof { lemma_eo_x_mul(*self, constraint); }")
+    f.before("let bit_times_a =", "proof { lemma_eo_x_mul(*self, constraint); }")
+    f.after("let bit_times_a =", f"proof {{ assert(wits(*self) == {W0}.push({v0})); }}")
+    f.before("let one_min_bit =", "proof { lemma_eo_x_lin(*self, constraint); }")
+    f.after("let one_min_bit =", f"proof {{ assert(wits(*self) == {W0}.push({v0}).push({v1})); }}")
+    f.after("let one_min_bit_b =", f"proof {{ assert(wits(*self) == {W0}.push({v0}).push({v1}).push({v2})); }}")
+    f.before("let one_min_bit_b =", "proof { lemma_eo_x_mul(*self, constraint); }")
     f.before_tail("proof { lemma_eo_x_add(*self, constraint); }")
     f = s.fn("Composer::component_select_zero")
     f.verus("composer.Composer::component_select_zero", ret="r",
